@@ -418,4 +418,67 @@ def argsText (pad1 : Str) (first : WArg) (rest : List (Str × WArg)) (pad2 : Str
 def wholeQuoted (pad1 : Str) (first : WArg) (rest : List (Str × WArg)) (pad2 : Str) : Bool :=
   pad1.isEmpty && pad2.isEmpty && rest.isEmpty && first.quoted && !first.val.contains 34
 
+/-! ## command lines as written -/
+
+/-- what may follow the closing parenthesis: blanks, an optional semicolon, blanks -/
+def cmdTail (t : Str) : Bool :=
+  match dropSpaces t with
+  | [] => true
+  | 59 :: u => allSpace u
+  | _ => false
+
+
+/-- the argument list between the parentheses: nothing but blanks, or arguments -/
+inductive WArgs
+  | none (pad : Str)
+  | some (pad1 : Str) (first : WArg) (rest : List (Str × WArg)) (pad2 : Str)
+  deriving Repr
+
+def WArgs.text : WArgs → Str
+  | .none pad => pad
+  | .some p1 f r p2 => argsText p1 f r p2
+
+def WArgs.ok : WArgs → Bool
+  | .none pad => padOK pad
+  | .some p1 f r p2 => padOK p1 && padOK p2 && f.ok && r.all (fun p => sepOK p.1 && p.2.ok)
+
+/-- the arguments the list denotes (a wholly quoted quote-free list: its words) -/
+def WArgs.vals : WArgs → List Str
+  | .none _ => []
+  | .some p1 f r p2 => if wholeQuoted p1 f r p2 then splitArgs [] f.val else f.val :: r.map (·.2.val)
+
+/-- a command line as written -/
+structure WCmd where
+  wrap : Wrap              -- indentation and trailing comment
+  name : Str               -- the command word as spelled
+  cmd : Cmd                -- the command the word stands for
+  gap : Str                -- blanks before `(`
+  args : WArgs
+  tl : Str                 -- after `)`: blanks, an optional `;`, blanks
+  deriving Repr
+
+def WCmd.core (c : WCmd) : Str := c.name ++ c.gap ++ [40] ++ c.args.text ++ [41] ++ c.tl
+def WCmd.raw (c : WCmd) : Str := c.wrap.around c.core
+
+/-- the text of a command line holds no newline, no `#`, and none of the seven old variable names that
+`_rewrite` replaces -/
+def WCmd.textOK (c : WCmd) : Bool :=
+  c.args.text.all (fun x => x != 10 && x != 35) && synonyms.all (fun p => !isInfix p.1 c.core)
+
+def WCmd.ok (c : WCmd) : Bool :=
+  c.wrap.ok && !c.name.isEmpty && c.name.all isWordCh && cmdTable.lookup (Str.lower c.name) == some c.cmd
+    && hblank c.gap && c.args.ok && c.tl.all (fun x => x == 32 || x == 9 || x == 59) && cmdTail c.tl && c.textOK
+
+/-- what the command denotes for a product whose directory variable is `pdir`: an action, nothing (commands the
+reader skips by design), or `none` when the reader refuses the line (wrong number of arguments) -/
+def WCmd.denote (pdir : Option Str) (c : WCmd) : Option (Option Action) :=
+  match normalise pdir c.cmd c.args.vals with
+  | .act a => some (some a)
+  | .skip => some none
+  | _ => none
+
+/-- the command line as a line of a written table -/
+def WCmd.line (pdir : Option Str) (c : WCmd) : BodyLineT :=
+  ⟨c.raw, match c.denote pdir with | some r => r | none => none⟩
+
 end EupsModel.C11Spec
